@@ -305,6 +305,7 @@ def run(ctx, prog, res):
     rule_r11(prog, res)
     rule_r12(ctx, prog, res)
     rule_r13(prog, res)
+    rule_r14(ctx, prog, res)
 
 
 def _or_roots(f, op, names, depth=0):
@@ -622,3 +623,49 @@ def rule_r13(prog, res):
             r13.check(ok_lo and ok_hi, {"fn": nm, "years": "%s ..= %s" % (lo, hi)}, "C01.R13:%s:window" % nm,
                       "MonthdayRange::%s projects a dated range on the years %s ..= %s only: a bound that its offset moves across the new year (`Jan 1 -1 day` on Dec 31, `Dec 31 +1 day` on Jan 1) belongs to a year outside the window and is lost" % (nm, lo, hi), lib.where_of(fn, t))
     r13.floor(6)
+
+
+def rule_r14(ctx, prog, res):
+    r14 = res.rule("C01.R14", "week selectors (`week 10-20`, `week 1-53/2`, `week 51-02`): a day matches iff its ISO week number lies in the inclusive (possibly wrapping) range and, for a range written in order, is a whole number of steps after its first week. WeekRange::filter is extracted per path from MIR (peval, ISO weeks modelled) and evaluated against this reading on every day from 2020-12-21 to 2021-01-10 (weeks 52, 53 and 1 around a 53-week year) and one day of every other week of 2021, for week ranges over {1, 2, 10, 26, 51, 52, 53} (thorough: all 53 x 53) and steps 1, 2, 3; wrapping ranges are only compared for step 1 (the meaning of a step after the wrap is not documented)")
+    import peval
+    WR = "opening_hours_syntax::rules::day::WeekRange"
+    filt = prog.impl_method_one("DateFilter", "filter", self_adt=WR)
+    ev = peval.Evaluator(prog)
+    thorough = ctx.tier == "thorough"
+    weeks = range(1, 54) if thorough else (1, 2, 10, 26, 51, 52, 53)
+    steps = (1, 2) if thorough else (1, 2, 3)
+    days = []
+    d = (2020, 12, 21)
+    while d <= (2021, 1, 10):
+        days.append(d)
+        d = peval.succ(d)
+    d = (2021, 1, 13)
+    while d < (2022, 1, 1):
+        days.append(d)
+        d = peval.from_ordinal(peval.ordinal(d) + 7)
+    seen_weeks = {peval.iso_week(x)[1] for x in days}
+    n = 0
+    bad = None
+    try:
+        for s in weeks:
+            for e in weeks:
+                for k in steps:
+                    if s > e and k != 1:
+                        continue
+                    sel = {"range": ("range", s, e), "step": k}
+                    for date in days:
+                        n += 1
+                        got = bool(ev.run(filt, [sel, date, None]))
+                        w = peval.iso_week(date)[1]
+                        want = (s <= w <= e and (w - s) % k == 0) if s <= e else (w >= s or w <= e)
+                        if got != want and bad is None:
+                            bad = (s, e, k, date, w, got, want)
+    except peval.Unmodelled as ex:
+        r14.fail("C01.R14:unmodelled", "WeekRange::filter cannot be evaluated from its MIR any more (%s): not decided, failing closed" % ex, lib.where_of(filt))
+        return
+    msg = ""
+    if bad:
+        s, e, k, date, w, got, want = bad
+        msg = "`week %02d-%02d%s` on %04d-%02d-%02d (ISO week %d): the filter says %s, the documented reading says %s" % (s, e, "/%d" % k if k != 1 else "", *date, w, got, want)
+    r14.check(bad is None, {"week_ranges": len(list(weeks)) ** 2, "steps": list(steps), "days": len(days), "iso_weeks_covered": len(seen_weeks), "evaluations": n}, "C01.R14:week", msg, lib.where_of(filt))
+    r14.check(len(seen_weeks) == 53, {"iso_weeks_covered": len(seen_weeks)}, "C01.R14:FLOOR", "FLOOR: the evaluated days cover %d ISO weeks, expected all 53" % len(seen_weeks))
